@@ -111,6 +111,16 @@ theorem safe_javaParse (ext : Ext) : Safe (javaParse ext) := by
   unfold javaParse
   exact Safe.bind safe_javaStatusText fun _ => Safe.lift_ne' _ (javaDecode_ne ext _)
 
+theorem safe_bedrockBody (n : Nat) : Safe (bedrockBody n) := by
+  unfold bedrockBody
+  exact Safe.bind safe_remainingLength fun _ =>
+    Safe.bind (Safe.lift_ne' _ (errorByExpectedSize_ne _ _)) fun _ =>
+    Safe.bind safe_readCStr fun _ => Safe.lift_ne' _ (bedrockStatus_ne _)
+
+theorem safe_bedrockLength : Safe bedrockLength := by
+  unfold bedrockLength
+  exact Safe.bind (safe_switchEndianChunk _) fun _ => Safe.lift_ne' _ (run_ne (safe_readUnsigned _ _) _)
+
 theorem safe_bedrockParse : Safe bedrockParse := by
   unfold bedrockParse
   refine Safe.bind safe_readU8 fun _ => ?_
@@ -125,11 +135,7 @@ theorem safe_bedrockParse : Safe bedrockParse := by
   refine Safe.bind (safe_readUnsigned _ _) fun _ => ?_
   split
   · exact Safe.fail _
-  exact Safe.bind (safe_switchEndianChunk _) fun _ =>
-    Safe.bind (Safe.lift_ne' _ (run_ne (safe_readUnsigned _ _) _)) fun _ =>
-    Safe.bind safe_remainingLength fun _ =>
-    Safe.bind (Safe.lift_ne' _ (errorByExpectedSize_ne _ _)) fun _ =>
-    Safe.bind safe_readCStr fun _ => Safe.lift_ne' _ (bedrockStatus_ne _)
+  exact Safe.bind safe_bedrockLength fun _ => safe_bedrockBody _
 
 theorem safe_legacyHeader (n : Nat) : Safe (legacyHeader n) := by
   unfold legacyHeader
